@@ -54,9 +54,18 @@ Record side := {
   sd_keyset : option str; (* symbol that carries the fingerprint of the option KEY SET
                              (`options.keys() | sort(case_sensitive=true) | join(",") | to_static_assertion_value`),
                              defined by the support header / asserted by the type header; None = not present *)
-  sd_msg_exprs : list str (* canonical text of every template expression interpolated INSIDE the string literals of the
+  sd_msg_exprs : list str;(* canonical text of every template expression interpolated INSIDE the string literals of the
                              assertion messages (type side; [] on the support side) *)
+  (* C / C++ level context of the statements (the scanner tracks comments and preprocessor conditionals) *)
+  sd_in_comment : bool;       (* a statement or the loop sits inside a /* */ or // comment *)
+  sd_pp_context : list str;   (* enclosing #if/#ifdef/#ifndef/#else branches that are not include guards *)
+  sd_includes_before : bool   (* type side: the `#include` loop over `T | includes` (which brings in the support header)
+                                 is rendered, live, before the first assertion; support side: true *)
 }.
+
+(* the statements are seen by the compiler: not commented out, not under a conditional, symbols declared before use *)
+Definition side_live (sd : side) : bool :=
+  negb (sd_in_comment sd) && match sd_pp_context sd with [] => true | _ => false end && sd_includes_before sd.
 
 (* A rendered symbol: the expression it was rendered with, and the key.  Two symbols are the
    same C/C++ entity iff both coincide (the rendered names of distinct keys are distinct:
@@ -231,7 +240,7 @@ Definition safe_msg_exprs : list str :=
 Definition msg_literal_safe (sd : side) : bool := forallb (fun e => str_in e safe_msg_exprs) (sd_msg_exprs sd).
 
 Definition sides_agree (sup typ : side) : bool :=
-  msg_literal_safe typ && msg_literal_safe sup &&
+  side_live typ && side_live sup && msg_literal_safe typ && msg_literal_safe sup &&
   str_eqb (sd_iter typ) iter_expr && str_eqb (sd_value typ) sav_expr &&
   str_eqb (sd_iter sup) (sd_iter typ) && str_eqb (sd_name sup) (sd_name typ) && str_eqb (sd_value sup) (sd_value typ)
   && match sd_skip sup, sd_skip typ with [], [] => true | _, _ => false end.
@@ -255,3 +264,41 @@ Definition keysets_ok (sav : oval -> option Z) (kss : list (list str)) : bool :=
 Definition keys_documentedb (kss : list (list str)) (o : opts) : bool :=
   existsb (list_str_eqb (isort (map fst o))) (map isort kss).
 Definition is_mismatch (d : diag) : bool := match d with Mismatch _ => true | _ => false end.
+
+(* ---- classification of the language options (hand-written; the regenerated option list of properties.yaml
+   must be covered: C17_options_classified fails for a newly added option until it is classified here) ----
+   OWire        changes the byte-level behaviour of the (de)serialisation code that support and type headers share
+   OSupportApi  changes which functions / macros the support header offers or requires
+   OAbi         changes the C++ type layout, container / allocator types or constructor signatures of generated types
+   OSource      changes only how expressions are spelled in the generated source
+   OIrrelevant  proven / argued not to influence support-header / type-header compatibility (none at present) *)
+Inductive oclass := OWire | OSupportApi | OAbi | OSource | OIrrelevant.
+Definition option_classes : list (str * oclass) :=
+  [ ([116; 97; 114; 103; 101; 116; 95; 101; 110; 100; 105; 97; 110; 110; 101; 115; 115] (* target_endianness *), OWire);
+    ([111; 109; 105; 116; 95; 102; 108; 111; 97; 116; 95; 115; 101; 114; 105; 97; 108; 105; 122; 97; 116; 105; 111; 110; 95; 115; 117; 112; 112; 111; 114; 116] (* omit_float_serialization_support *), OSupportApi);
+    ([101; 110; 97; 98; 108; 101; 95; 115; 101; 114; 105; 97; 108; 105; 122; 97; 116; 105; 111; 110; 95; 97; 115; 115; 101; 114; 116; 115] (* enable_serialization_asserts *), OSupportApi);
+    ([101; 110; 97; 98; 108; 101; 95; 111; 118; 101; 114; 114; 105; 100; 101; 95; 118; 97; 114; 105; 97; 98; 108; 101; 95; 97; 114; 114; 97; 121; 95; 99; 97; 112; 97; 99; 105; 116; 121] (* enable_override_variable_array_capacity *), OAbi);
+    ([99; 97; 115; 116; 95; 102; 111; 114; 109; 97; 116] (* cast_format *), OSource);
+    ([115; 116; 100] (* std *), OAbi);
+    ([115; 116; 100; 95; 102; 108; 97; 118; 111; 114] (* std_flavor *), OAbi);
+    ([118; 97; 114; 105; 97; 98; 108; 101; 95; 97; 114; 114; 97; 121; 95; 116; 121; 112; 101; 95; 105; 110; 99; 108; 117; 100; 101] (* variable_array_type_include *), OAbi);
+    ([118; 97; 114; 105; 97; 98; 108; 101; 95; 97; 114; 114; 97; 121; 95; 116; 121; 112; 101; 95; 116; 101; 109; 112; 108; 97; 116; 101] (* variable_array_type_template *), OAbi);
+    ([118; 97; 114; 105; 97; 98; 108; 101; 95; 97; 114; 114; 97; 121; 95; 116; 121; 112; 101; 95; 99; 111; 110; 115; 116; 114; 117; 99; 116; 111; 114; 95; 97; 114; 103; 115] (* variable_array_type_constructor_args *), OAbi);
+    ([97; 108; 108; 111; 99; 97; 116; 111; 114; 95; 105; 110; 99; 108; 117; 100; 101] (* allocator_include *), OAbi);
+    ([97; 108; 108; 111; 99; 97; 116; 111; 114; 95; 116; 121; 112; 101] (* allocator_type *), OAbi);
+    ([97; 108; 108; 111; 99; 97; 116; 111; 114; 95; 105; 115; 95; 100; 101; 102; 97; 117; 108; 116; 95; 99; 111; 110; 115; 116; 114; 117; 99; 116; 105; 98; 108; 101] (* allocator_is_default_constructible *), OAbi);
+    ([99; 116; 111; 114; 95; 99; 111; 110; 118; 101; 110; 116; 105; 111; 110] (* ctor_convention *), OAbi) ].
+Definition classifiedb (keys : list str) : bool :=
+  forallb (fun k => match lookup_key k option_classes with Some _ => true | None => false end) keys.
+(* options that must agree between the two translation units: every classified option except OIrrelevant, and every
+   option nobody has classified (user-defined ones) *)
+Definition relevant (k : str) : bool :=
+  match lookup_key k option_classes with Some OIrrelevant => false | _ => true end.
+Definition opt_equiv (o1 o2 : list (str * oval)) : Prop :=
+  forall k, relevant k = true -> lookup_key k o1 = lookup_key k o2.
+
+(* a tree before the key-set fingerprint (History/C17_history.v) *)
+Definition without_keyset (sd : side) : side :=
+  {| sd_iter := sd_iter sd; sd_skip := sd_skip sd; sd_name := sd_name sd; sd_value := sd_value sd;
+     sd_unless_omit := sd_unless_omit sd; sd_keyset := None; sd_msg_exprs := sd_msg_exprs sd;
+     sd_in_comment := sd_in_comment sd; sd_pp_context := sd_pp_context sd; sd_includes_before := sd_includes_before sd |}.
